@@ -34,8 +34,8 @@ func init() {
 }
 
 type tsThrottle struct {
-	Bytes     string `json:"bytes"`
-	Bandwidth int64  `json:"bandwidth"`
+	Bytes      string `json:"bytes"`
+	Bandwidth  int64  `json:"bandwidth"`
 	start, end int64
 }
 type tsHalt struct {
@@ -160,14 +160,14 @@ func genBadTSConfig(k *kernel.K) *tsConfig {
 }
 
 type tsEx struct {
-	id        int
-	path      string
+	id         int
+	path       string
 	rangeStart int64
-	total     int // size of the full resource
-	body      []byte
-	spec      *ReqSpec
-	resp      *RespSpec
-	connGen   int // configuration generation in force when its connection was accepted
+	total      int // size of the full resource
+	body       []byte
+	spec       *ReqSpec
+	resp       *RespSpec
+	connGen    int // configuration generation in force when its connection was accepted
 }
 
 type writeStamp struct {
